@@ -102,6 +102,13 @@ func (c *Conn) Read(p []byte) (int, error) {
 	if l.ClientEnd {
 		return 0, &net.OpError{Op: "read", Net: "sim", Err: ErrClosed}
 	}
+	if !l.rdl.IsZero() && !time.Now().Before(l.rdl) {
+		// like a real socket: a deadline that has already passed (also one set
+		// to "now") fails the call at once, whether or not data is waiting
+		l.S.Count("fault.read-deadline-exceeded")
+		l.S.Logf("net%d read#%d -> deadline already passed", l.ID, l.Reads)
+		return 0, &net.OpError{Op: "read", Net: "sim", Err: os.ErrDeadlineExceeded}
+	}
 	if l.ReadErrAtOp != 0 && l.Reads == l.ReadErrAtOp {
 		l.S.Count("fault.read-error")
 		l.FaultFired = true
@@ -182,6 +189,11 @@ func (c *Conn) Write(p []byte) (int, error) {
 	if l.rdErr != nil {
 		l.ClientSawEnd = true
 		return 0, &net.OpError{Op: "write", Net: "sim", Err: ErrWrite}
+	}
+	if !l.wdl.IsZero() && !time.Now().Before(l.wdl) {
+		l.S.Count("fault.write-deadline-exceeded")
+		l.S.Logf("net%d write#%d -> deadline already passed", l.ID, l.WritesN)
+		return 0, &net.OpError{Op: "write", Net: "sim", Err: os.ErrDeadlineExceeded}
 	}
 	if l.WriteErrAtOp != 0 && l.WritesN == l.WriteErrAtOp {
 		n := 0
